@@ -321,5 +321,18 @@ def arithmetic_shape(repo: Repo, R):
             f"Prefixed * Prefix: target exponent = sum of the two exponents ({targ_ok}); nearest prefix e(targ) ({exp_ok}); number shifted by the leftover decades targ - nearest ({shift_ok}: `{ast.unparse(nn) if nn is not None else None}`); result under the nearest prefix ({res_ok})",
             why="products whose exponents do not sum to a prefix (pairs with centi/deci/deca/hecto, or sums beyond +-24) are off by powers of ten")
     tp = repo.func(F_PREFIX, "to_prefixed")
-    fl = any(shared.prov_text(tp.node, r.value) == "Prefixed(number=Decimal(str(v)))" and shared.cond_match(tp.node, r, "isinstance(v, (int, float))", True, use_prov=False) for r in shared.returns_of(tp.node))
+    fl = False
+    for r in shared.returns_of(tp.node):
+        for v, cds in shared.alternatives(tp.node, r.value, list(shared.path_conditions(tp.node, r))):
+            if ast.unparse(v) == "Prefixed(number=Decimal(str(v)))":
+                ks = set()
+                for t, pol in cds:
+                    rr = au.isinstance_classes(t) if isinstance(t, ast.Call) else None
+                    if rr is not None and ast.unparse(rr[0]) == "v" and pol:
+                        ks |= {ast.unparse(c) for c in rr[1]}
+                fl = fl or ks == {"int", "float"}
+    # and no path converts a float to Decimal directly
+    direct = any(ast.unparse(v) in ("Prefixed(number=Decimal(v))", "Prefixed(number=v)") and any(pol and (au.isinstance_classes(t) is not None) and ast.unparse(au.isinstance_classes(t)[0]) == "v" and {"float"} & {ast.unparse(c) for c in au.isinstance_classes(t)[1]} for t, pol in cds if isinstance(t, ast.Call))
+                 for r in shared.returns_of(tp.node) for v, cds in shared.alternatives(tp.node, r.value, list(shared.path_conditions(tp.node, r))))
+    fl = fl and not direct
     R.check(fl, rule, key_of(tp), tp.site, f"to_prefixed converts int/float through str() before Decimal (no binary-fraction digits): {fl}", why="0.1 becomes 0.1000000000000000055511151231257827...")
